@@ -23,28 +23,28 @@ import (
 const repoMod = "github.com/in-toto/in-toto-golang"
 
 type TierCfg struct {
-	Ranges   [][2]int `json:"ranges"`   // cross product of inclusive ranges -> case args
-	Cases    [][]int  `json:"cases"`    // explicit cases (in addition)
+	Ranges   [][2]int `json:"ranges"`    // cross product of inclusive ranges -> case args
+	Cases    [][]int  `json:"cases"`     // explicit cases (in addition)
 	MaxPaths int      `json:"max_paths"` // per case; 0 = default
 	MaxSteps int      `json:"max_steps"`
 }
 
 type HarnessCfg struct {
-	Name        string            `json:"name"`
-	Property    string            `json:"property"`
-	Pkg         string            `json:"pkg"` // in_toto, cmd, internal/spiffe
-	Quick       TierCfg           `json:"quick"`
-	Thorough    TierCfg           `json:"thorough"`
-	StubsOn     map[string]bool   `json:"stubs_on"`
-	SymOrder    []string          `json:"sym_order"` // function names (suffix match) with symbolic map order; "*" = all
-	Assumptions []string          `json:"assumptions"`
-	Bounds      string            `json:"bounds"`
-	Attempts    int               `json:"replay_attempts"` // native attempts (map order)
-	Twin        bool              `json:"twin"`            // vacuity twin: expected to be violated
-	Race        bool              `json:"race"`
-	Known       map[string]string `json:"known"` // known-finding id -> description
-	MonitorGlobals bool           `json:"monitor_globals"`
-	NoPkgInit      bool           `json:"no_pkg_init"`
+	Name           string            `json:"name"`
+	Property       string            `json:"property"`
+	Pkg            string            `json:"pkg"` // in_toto, cmd, internal/spiffe
+	Quick          TierCfg           `json:"quick"`
+	Thorough       TierCfg           `json:"thorough"`
+	StubsOn        map[string]bool   `json:"stubs_on"`
+	SymOrder       []string          `json:"sym_order"` // function names (suffix match) with symbolic map order; "*" = all
+	Assumptions    []string          `json:"assumptions"`
+	Bounds         string            `json:"bounds"`
+	Attempts       int               `json:"replay_attempts"` // native attempts (map order)
+	Twin           bool              `json:"twin"`            // vacuity twin: expected to be violated
+	Race           bool              `json:"race"`
+	Known          map[string]string `json:"known"` // known-finding id -> description
+	MonitorGlobals bool              `json:"monitor_globals"`
+	NoPkgInit      bool              `json:"no_pkg_init"`
 }
 
 type HarnessFile struct {
@@ -86,21 +86,25 @@ var interpPkgPrefixes = []string{
 }
 
 var interpFuncs = map[string]bool{
-	"(syscall.WaitStatus).ExitStatus": true,
-	"(syscall.WaitStatus).Exited":     true,
-	"(syscall.WaitStatus).Signaled":   true,
-	"(syscall.WaitStatus).Signal":     true,
-	"(syscall.WaitStatus).Stopped":    true,
-	"strings.Repeat":                  false,
-	"(time.Duration).Hours":           true,
-	"(time.Duration).Minutes":         true,
-	"(time.Duration).Seconds":         true,
-	"(time.Duration).Nanoseconds":     true,
-	"(time.Duration).Milliseconds":    true,
-	"(time.Duration).Microseconds":    true,
-	"(*crypto/rsa.PrivateKey).Public":     true,
-	"(*crypto/ecdsa.PrivateKey).Public":   true,
-	"(crypto/ed25519.PrivateKey).Public":  true,
+	"(syscall.WaitStatus).ExitStatus":    true,
+	"(syscall.WaitStatus).Exited":        true,
+	"(syscall.WaitStatus).Signaled":      true,
+	"(syscall.WaitStatus).Signal":        true,
+	"(syscall.WaitStatus).Stopped":       true,
+	"strings.Repeat":                     false,
+	"(time.Duration).Hours":              true,
+	"(time.Duration).Minutes":            true,
+	"(time.Duration).Seconds":            true,
+	"(time.Duration).Nanoseconds":        true,
+	"(time.Duration).Milliseconds":       true,
+	"(time.Duration).Microseconds":       true,
+	"(time.Duration).Truncate":           true,
+	"(time.Duration).Round":              true,
+	"(time.Duration).Abs":                true,
+	"time.lessThanHalf":                  true,
+	"(*crypto/rsa.PrivateKey).Public":    true,
+	"(*crypto/ecdsa.PrivateKey).Public":  true,
+	"(crypto/ed25519.PrivateKey).Public": true,
 }
 
 func (w *World) interpretable(pkgPath, full string) bool {
@@ -190,8 +194,8 @@ func loadWorld(repoDir, verifDir string, pkgDirs []string) (*World, error) {
 		}
 		parts := strings.SplitN(stub, ".", 2)
 		sp := w.ssaPkgs[repoMod+"/"+parts[0]]
-		if sp == nil {
-			continue // package not loaded in this run
+		if sp == nil || !w.harnessPkgs[repoMod+"/"+parts[0]] {
+			continue // package not loaded in this run, or loaded only as a dependency (without its harness files)
 		}
 		f := sp.Func(parts[1])
 		if f == nil {
@@ -218,16 +222,16 @@ type workItem struct {
 }
 
 type Violation struct {
-	Harness   string            `json:"harness"`
-	Args      []int             `json:"args"`
-	AssertID  string            `json:"assert"`
-	Kind      string            `json:"kind"` // assert, panic, hang
-	Msg       string            `json:"msg,omitempty"`
-	Draws     []ReplayDraw      `json:"draws"`
-	UF        map[string]bool   `json:"uf"`
-	Decisions []int32           `json:"decisions"`
-	Observes  []string          `json:"observes,omitempty"`
-	Known     string            `json:"known,omitempty"`
+	Harness   string          `json:"harness"`
+	Args      []int           `json:"args"`
+	AssertID  string          `json:"assert"`
+	Kind      string          `json:"kind"` // assert, panic, hang
+	Msg       string          `json:"msg,omitempty"`
+	Draws     []ReplayDraw    `json:"draws"`
+	UF        map[string]bool `json:"uf"`
+	Decisions []int32         `json:"decisions"`
+	Observes  []string        `json:"observes,omitempty"`
+	Known     string          `json:"known,omitempty"`
 }
 
 type ReplayDraw struct {
@@ -238,19 +242,19 @@ type ReplayDraw struct {
 
 type runStats struct {
 	paths, transitions, asserted, infeasible, unsupported, unwind, panics, hangs int64
-	mu                                                                          sync.Mutex
+	mu                                                                           sync.Mutex
 }
 
 func (s *runStats) addTransitions(n int64) { atomic.AddInt64(&s.transitions, n) }
 func (s *runStats) addAsserted(n int64)    { atomic.AddInt64(&s.asserted, n) }
 
 type PathSample struct {
-	Harness  string       `json:"harness"`
-	Args     []int        `json:"args"`
-	Draws    []ReplayDraw `json:"draws"`
+	Harness  string          `json:"harness"`
+	Args     []int           `json:"args"`
+	Draws    []ReplayDraw    `json:"draws"`
 	UF       map[string]bool `json:"uf"`
-	Observes []string     `json:"observes"`
-	Outcome  string       `json:"outcome"`
+	Observes []string        `json:"observes"`
+	Outcome  string          `json:"outcome"`
 }
 
 type HarnessRun struct {
